@@ -19,6 +19,14 @@ func init() {
 	generators["C11"] = GenConfig
 }
 
+// anyErrText strips the "t=...: " prefix of the first failing instant query.
+func anyErrText(s string) string {
+	if i := strings.Index(s, ": "); i >= 0 {
+		return s[i+2:]
+	}
+	return s
+}
+
 func scalarAsMatrix(r *Result) *Result {
 	if r == nil || r.Type != "scalar" {
 		return r
@@ -132,7 +140,7 @@ func rviMain(x *X) {
 			x.R.Skipped = "tie"
 			return
 		}
-		x.Viol("C07", "range-vs-instant", "error-mismatch|"+shape, fmt.Sprintf("%s [%d..%d step %d]: range query error %q, instant queries: %q", op.Q, op.Start, op.End, op.Step, full.Err, anyErr))
+		x.Viol("C07", "range-vs-instant", "error-mismatch|"+errClass(full.Err+anyErrText(anyErr))+"|"+shape, fmt.Sprintf("%s [%d..%d step %d]: range query error %q, instant queries: %q", op.Q, op.Start, op.End, op.Step, full.Err, anyErr))
 		return
 	}
 	if full.Err != "" {
@@ -250,7 +258,7 @@ func multiMain(x *X) {
 				x.R.Skipped = "tie"
 				continue
 			}
-			x.Viol(prop, "variant-differs", "error-mismatch|"+tag+"|"+shape, fmt.Sprintf("%s: error %q vs %q", desc, bo.Err, o.Err))
+			x.Viol(prop, "variant-differs", "error-mismatch|"+errClass(bo.Err+o.Err)+"|"+tag+"|"+shape, fmt.Sprintf("%s: error %q vs %q", desc, bo.Err, o.Err))
 			continue
 		}
 		if o.Err != "" {
